@@ -38,8 +38,14 @@ for try in 1 2 3; do
 done
 cat /tmp/vs_tc.log >>/tmp/vs_tests.log
 echo "demo without patch: exit $WITHOUT (want 0); with patch: exit $WITH (want !=0); existing tests with patch: $T1/$T2 (want 0/0)"
+{
+  echo "verified on $(date -u +%Y-%m-%dT%H:%MZ) against /repo $(git -C /repo log --format=%h -1) by tools/verify_seed.sh"
+  echo "demo ($REL, tests $RUNPAT): without patch exit $WITHOUT, with patch exit $WITH"
+  echo "existing tests with patch: seat_manager+open_game_manager+actor exit $T1; testcases (3 stable tests, flaky-panic retried) exit $T2"
+} > "$DST/verified.txt"
 cd /verif
 for P in "$@"; do
   echo "--- check $P against the patched copy"
-  VERIF_REPO="$W" /verif/check.sh "$P" quick -evidence /dev/null 2>&1 | grep -E "^VIOLATION|clause=|^C[0-9]+ |KNOWN|ERROR" | sed 's/replay=.*//; s/suite=[^ ]* //' | sort | uniq -c | sort -rn | head -6
+  VERIF_REPO="$W" /verif/check.sh "$P" quick -evidence /dev/null 2>&1 | grep -E "^VIOLATION|clause=|^C[0-9]+ |KNOWN|ERROR" | sed 's/replay=.*//; s/suite=[^ ]* //' | sort | uniq -c | sort -rn | head -6 | tee -a "$DST/verified.txt.tmp"
+  { echo "check $P quick against the patched copy:"; cat "$DST/verified.txt.tmp"; } >> "$DST/verified.txt"; rm -f "$DST/verified.txt.tmp"
 done
